@@ -179,7 +179,8 @@ def r06_3(ctx):
                 ast.unparse(st.value.args[0]) == job + '._worker_pid':
             t0 = st.targets[0]
             pvars.append(ast.unparse(t0.elts[0]) if isinstance(t0, ast.Tuple) and t0.elts else ast.unparse(t0))
-    ok = bool(pvars) and all(any(p and t in pvars for (t, p) in q.guards_norm(fi, n)) for n in kills)
+    ok = bool(pvars) and all(any((p and t in pvars) or (not p and t in [v_ + ' is None' for v_ in pvars])
+                                 for (t, p) in q.guards_norm(fi, n)) for n in kills)
     pb = m.func('pool:TimeoutHandler._process_by_pid')
     gens = [g for g in ast.walk(pb.node) if isinstance(g, ast.GeneratorExp)]
     shape_ok = False
